@@ -27,7 +27,7 @@ def run(rep):
     n_logic, n_mem, ncon, cycles = (50, 30, 4, 8) if quick else (600, 300, 6, 12)
     rnd = random.Random(rep.seed * 7331 + 5)
     base = [G.gen_design(rep.seed * 100003 + 77 + i, f"l{i}")[0] for i in range(n_logic)]
-    base += [memgen.gen_mem_design(rep.seed * 500009 + 99 + i, f"m{i}") for i in range(n_mem)]
+    base += [memgen.gen_mem_design(rep.seed * 500009 + 99 + i, f"m{i}", fill_prob=0.6, exact_lookup=(i % 3 == 0)) for i in range(n_mem)]
     # 1) learn the input pins (names, widths) of every design from a run with one stimulus
     G.write_programs(work / "probe.txt", base)
     circ.run_harness(harness, str(work / "probe.txt"), str(work), "pre", nstim=1, cycles=1)
